@@ -384,7 +384,10 @@ Definition complete_option (tbl : pvtable) (arg : bytes) (c : cmd) : cres :=
                   | Some l => COk (map (add_prefix ([DASH] ++ leading ++ (if has_equal then [EQ] else []))) l)
                   end
               | SFOk leading None _ =>
-                  COk (map (add_prefix ([DASH] ++ leading)) (shorts_and_visible_aliases c))
+                  (* a cluster cut short by invalid UTF-8 cannot be extended by a flag (fix 2e813fe) *)
+                  if utf8_valid arg
+                  then COk (map (add_prefix ([DASH] ++ leading)) (shorts_and_visible_aliases c))
+                  else COk []
               end
             else COk []
         | None => COk []
@@ -445,7 +448,8 @@ Definition parse_opt_value (o : arg) (count : N) : option pstate :=
   | Some r => Some (if count <? vmax r then Opt o (count + 1) else ValueDone)
   end.
 
-(** [parse_positional]; [None] = the [unreachable!] of line 664 *)
+(** [parse_positional]; [None] = the [expect("built")] of [parse_opt_value] (line 673).
+    (Before fix 8cf4a4e the [Opt] arm was [unreachable!]: finding D.) *)
 Definition parse_positional (c : cmd) (pos_index : N) (is_escaped : bool) (st : pstate) : option (pstate * N) :=
   let num_args := match find_pos c pos_index with
                   | Some a => match a_num a with Some r => vmax r | None => 1 end
@@ -462,9 +466,10 @@ Definition parse_positional (c : cmd) (pos_index : N) (is_escaped : bool) (st : 
         else if is_escaped then Some (Pos pos_index 1, pos_index + 1)
         else Some (ValueDone, pos_index + 1)
       else Some update_state_with_new_positional
-  | Opt _ _ => None
+  | Opt o count => match parse_opt_value o count with Some st => Some (st, pos_index) | None => None end
   end.
 
+Definition has_short (c : cmd) (ch : N) : bool := is_some (find_short_visible c ch).
 Definition pos_allows_hyphen (c : cmd) (pos_index : N) : bool :=
   match find_pos c pos_index with Some p => a_hyphen p | None => false end.
 Definition opt_allows_hyphen (st : pstate) (arg : bytes) : bool :=
@@ -490,9 +495,12 @@ Definition shadow_step (arg : bytes) (cur : cmd) (pos_index : N) (is_escaped : b
   let positional :=
     match parse_positional cur pos_index is_escaped current_state with
     | Some (st, pi) => SNext cur pi is_escaped st
-    | None => SPanic 664
+    | None => SPanic 673
     end in
-  match (if utf8_valid arg then find_subcommand cur arg else None) with
+  (* like the real parser, a value of a pending option is not a subcommand (fix 689b619) *)
+  let maybe_subcommand :=
+    is_set s_sub_precedence cur || negb (match current_state with Opt _ _ => true | _ => false end) in
+  match (if maybe_subcommand && utf8_valid arg then find_subcommand cur arg else None) with
   | Some next_cmd => SNext next_cmd 1 is_escaped ValueDone
   | None =>
       if is_escaped then positional
@@ -529,8 +537,11 @@ Definition shadow_step (arg : bytes) (cur : cmd) (pos_index : N) (is_escaped : b
                 | SFOk _ (Some o) short' =>
                     if is_none (next_value_os short') then SNext cur pos_index is_escaped (Opt o 1)
                     else SNext cur pos_index is_escaped ValueDone
-                | SFOk _ None _ =>
-                    if pos_allows_hyphen cur pos_index then positional
+                | SFOk flags None _ =>
+                    (* known flags stay flags even if the next positional allows hyphens (fix d4a15c6) *)
+                    if utf8_valid arg && forallb (has_short cur) (decode flags)
+                    then SNext cur pos_index is_escaped ValueDone
+                    else if pos_allows_hyphen cur pos_index then positional
                     else SNext cur pos_index is_escaped ValueDone
                 end
             | None =>
